@@ -30,7 +30,9 @@ def parsePlugins (s : String) : Option (List (List Nat)) :=
   else (s.splitOn ",").mapM (fun k => if k == "e" then some [] else (k.splitOn ".").mapM String.toNat?)
 
 def whyStr : Why → String
-  | .parse e => "parse:" ++ Px.Parser.errStr e
+  | .parse (.parser e) => "parse:" ++ Px.Parser.errStr e
+  | .parse .assertion => "parse:assertion"
+  | .parse .notImplemented => "parse:notImplemented"
   | .unknownProtocol => "unknown"
   | .noPlugin p => s!"noplugin:{p.num}"
   | .pluginRaised pid => s!"plugin:{pid}"
@@ -48,6 +50,15 @@ def handlerQueued : Outcome → List Bytes
   | .reject _ q => q
   | _ => []
 
+def addrStr : Option (Bytes × Int) → String
+  | none => "None"
+  | some (h, p) => s!"{hex h}:{p}"
+
+/-- `request.protocol` attributes -/
+def ppStr : Option Px.PP.PP → String
+  | none => "None"
+  | some v => s!"({v.version},{hexOpt v.family},{addrStr v.source},{addrStr v.destination})"
+
 def isParseReject : Outcome → Bool
   | .reject (.parse _) _ => true
   | _ => false
@@ -59,7 +70,8 @@ def obsSeg (cfg : Cfg) (st : St) (data : Bytes) : St × String :=
     | (_, o, r) =>
       let st' := (tick cfg st data).1
       -- after a parse exception the Python object is left half-updated: not compared
-      let ps := if isParseReject o then "st=? tot=?" else s!"st={st'.request.state.num} tot={st'.request.totalSize}"
+      let ps := if isParseReject o then "st=? tot=?"
+        else s!"st={st'.request.state.num} tot={st'.request.totalSize} pp={ppStr st'.pp}"
       (st', s!"o={outcomeStr o} hq={blStr (handlerQueued o)} q={blStr st'.buffer} ret={b01 r} mf={b01 st'.mustFlush} td={b01 st'.teardown} " ++
             s!"esc={b01 st'.escaped} ri={b01 (reading st')} {ps}")
   else (st, "o=unread")
@@ -73,7 +85,7 @@ def ctxOf (s : String) : Wf.Ctx := if s == "connect" then .connect else .other
 
 def drv (args : List String) : String :=
   match args with
-  | "run" :: plugins :: oc :: cds :: segs =>
+  | "run" :: flag :: plugins :: oc :: cds :: segs =>
     let ocR : Option (Option PluginRes) := if oc == "none" then some none else (parseRes oc).map some
     let cdsR : Option (List PluginRes) := if cds == "." then some [] else (cds.splitOn ",").mapM parseRes
     match parsePlugins plugins, ocR, cdsR, Px.Parser.unhexAll segs with
@@ -81,6 +93,7 @@ def drv (args : List String) : String :=
       -- a hook the implementation never ran must not be needed by the model either
       let missing : PluginRes := .crash [[0x6d, 0x69, 0x73, 0x73]]
       let cfg : Cfg := {
+        proxyProtocol := flag == "pp"
         plugins := plugins
         onComplete := fun _ _ => oc.getD missing
         onClientData := fun _ k _ => cds.getD k missing }
